@@ -91,9 +91,12 @@ def entryOkB (A : Alloc) : Bool :=
 def fixedOkB (A : Alloc) : Bool :=
   pairwiseB (fun a b => A.colour a != A.colour b) A.fixed
 
-/-- THE validator -/
+/-- THE validator (every instruction preserves the simulation relation).  `entryOkB` is
+    separate: it says that the relation can be established at function entry for every
+    initial state, which fails only when two values that are live-in at entry share a
+    register — i.e. for values that are read before any definition. -/
 def check (p : Program) (A : Alloc) : Bool :=
-  fixedOkB A && entryOkB A && checkFrom p A 0 p
+  fixedOkB A && checkFrom p A 0 p
 
 /-! ## one spill rewrite -/
 
